@@ -179,6 +179,35 @@ def build_and_audit(prop, extra_targets=(), driver=None, extra_drivers=()):
 	return result
 
 
+def own_modules(prop):
+	"""The property's theorem module and every module of this project it imports, transitively."""
+	seen = set()
+
+	def visit(module):
+		path = os.path.join(LEAN, module.replace('.', '/') + '.lean')
+		if module in seen or not os.path.exists(path):
+			return
+		seen.add(module)
+		with open(path, 'rt', encoding='utf8') as infile:
+			for name in re.findall(r'^import (SymbolVerif\.[\w.]+)', infile.read(), flags=re.M):
+				visit(name)
+
+	visit(f'SymbolVerif.Properties.{prop}')
+	return sorted(seen)
+
+
+def recheck(prop):
+	"""Thorough tier: the compiled modules behind the property's theorems are replayed by `leanchecker`, the toolchain's independent
+	re-checker of .olean files (every declaration is sent through the kernel again, outside the elaborator that produced it).
+	Returns (ok, module count, seconds, log excerpt)."""
+	import time
+	modules = own_modules(prop)
+	started = time.time()
+	with _Lock():
+		proc = subprocess.run(['lake', 'env', 'leanchecker'] + modules, cwd=LEAN, capture_output=True, text=True, timeout=3000, check=False)
+	return 0 == proc.returncode, len(modules), round(time.time() - started, 1), (proc.stdout + proc.stderr)[-1500:]
+
+
 class Driver:
 	"""The Lean model behind its line protocol."""
 
@@ -385,6 +414,8 @@ def write_evidence(ctx, build, level_note_assumptions, rule, trusted_base, viola
 		'driver_requests': ctx.driver.requests if ctx.driver else 0,
 		'notes': ctx.notes,
 	}
+	if build.get('recheck'):
+		coverage['independent_recheck'] = build['recheck']
 	if extra:
 		coverage.update(jsonable(extra))
 	if build['discharged'] < 1:
